@@ -58,6 +58,7 @@ def values_menu() -> dict[str, Any]:
         "'a'": "a", "'5'": "5", "'nan'": "nan", "''": "", "b'5'": b"5",
         "[1.0]": [1.0], "(1.0,)": (1.0,), "[1.0,2.0]": [1.0, 2.0], "[]": [], "[None]": [None], "['5']": ["5"],
         "[nan]": [NAN], "[1.0,nan]": [1.0, NAN], "[1,2,3]": [1, 2, 3],
+        "[inf,-inf]": [INF, -INF], "[-inf,inf]": (-INF, INF), "[inf,1.0]": [INF, 1.0], "[-inf,-inf]": [-INF, -INF],
         "np.float64": np.float64(1.5), "np.array(1.0)": np.array(1.0), "np.array([1.0])": np.array([1.0]),
         "np.array([1.,2.])": np.array([1.0, 2.0]), "np.int32": np.int32(3),
         "Decimal": decimal.Decimal("1.5"), "Fraction": fractions.Fraction(1, 2), "10**400": 10**400,
@@ -267,7 +268,8 @@ def run_program(config: str, prog: tuple, n_obj: int, catch_name: str, cb_name: 
 
 # ---------------------------------------------------------------------------------------------
 TELL_STATES = [None, TrialState.COMPLETE, TrialState.PRUNED, TrialState.FAIL, TrialState.RUNNING, TrialState.WAITING]
-TELL_VALUES = ["<omit>", "1.0", "nan", "None", "'5'", "[1.0]", "[1.0,2.0]", "[]", "[None]", "10**400", "FloatRaises(ValueError)", "inf", "np.array([1.0])"]
+TELL_VALUES = ["<omit>", "1.0", "nan", "None", "'5'", "[1.0]", "[1.0,2.0]", "[inf,-inf]", "[1.0,nan]", "[]", "[None]", "10**400",
+               "FloatRaises(ValueError)", "inf", "np.array([1.0])"]
 
 
 def run_tell(config: str, n_obj: int, part: Part) -> None:
@@ -548,6 +550,8 @@ def run(tier: str, replay: str | None = None) -> int:
     for b in bs:
         tasks.append(("prog", "mem", b, 2 if tier == "quick" else 3, 1))
         tasks.append(("prog", "mem", b, 1 if tier == "quick" else 2, 2))
+        if b[1].startswith("[") and tier == "quick":
+            tasks.append(("prog", "mem", b, 2, 2))  # container returns: pairs also with 2 objectives
         for cfg in ("jfile-sym", "grpc(mem)", "cached"):
             tasks.append(("prog", cfg, b, 1 if (tier == "quick" or cfg == "cached") else 2, 1))
         tasks.append(("variants", "mem", b))
